@@ -338,6 +338,7 @@ impl Prop for C04 {
                     evaluations += 1;
                     rep.fire(dmg.kind, 1);
                     rep.states.push(files_digest(&dfiles));
+                    let dfiles_keys: Vec<crate::store::FileKey> = dfiles.keys().copied().collect();
                     let p = sim.probe_state(dfiles, &expected);
                     let class = format!("{}:{}", ft_name(dmg.tpe), dmg.kind);
                     let mut add = |rep: &mut Report, fp: String, d: String| {
@@ -355,6 +356,24 @@ impl Prop for C04 {
                             if &id_hex(&rec.snap.tree) != tree {
                                 add(&mut rep, format!("C04/substituted-file-accepted:{class}"), format!("{}: snapshot id {h} now resolves to tree {tree} instead of {}", dmg.label(), id_hex(&rec.snap.tree)));
                             }
+                        }
+                    }
+                    // a snapshot file that is still stored must be listed (or the listing must fail)
+                    if p.open_err.is_none() && p.list_err.is_none() {
+                        for k in dfiles_keys.iter().filter(|k| k.0 == crate::store::ft_code(FileType::Snapshot)) {
+                            let h = id_hex(&k.1);
+                            if !p.listed.contains_key(&h) {
+                                add(&mut rep, format!("C04/stored-snapshot-silently-omitted-from-listing:{class}"), format!("{}: get_all_snapshots returned Ok without snapshot {h}, whose file is still stored", dmg.label()));
+                            }
+                        }
+                    }
+                    // "latest" must resolve to the same snapshot as before or fail (removing a snapshot file legitimately changes it)
+                    if let (Some(Ok(before)), Some(now)) = (&ctl.latest, &p.latest) {
+                        match now {
+                            Err(_) => detected = true,
+                            Ok(n) if n == before => {}
+                            Ok(_) if dmg.tpe == FileType::Snapshot && dmg.kind == "remove" => {}
+                            Ok(n) => add(&mut rep, format!("C04/latest-resolves-to-another-snapshot:{class}"), format!("{}: `latest` resolved to snapshot {} (tree {}) before and to {} (tree {}) now, without an error", dmg.label(), before.0, before.1, n.0, n.1)),
                         }
                     }
                     for (h, rb) in &p.readback {
